@@ -3,6 +3,7 @@ CONSTANTS Times <- McTimesS
  ExpChoices <- McExp
  OfferMenu <- McMenuS
  MaxBlocks = 3
+ MaxBoots = 1
  DupCheck = TRUE
  PayloadIdentity = FALSE
 INVARIANTS AtMostOnce InWindow ForkFree
